@@ -271,7 +271,8 @@ def datetimeIsDate : Column → R Bool :=
 /-- `string_is_geometry` (under `series_handle_nulls`): `all(wkt.loads(value) for value in sequence)` -/
 def stringIsGeometry : Column → R Bool := handleNulls fun c =>
   let caught := fun cls => isA cls "WKTReadingError" || isA cls "ShapelyError" || isA cls "GEOSException" ||
-    isA cls "AttributeError" || isA cls "UnicodeEncodeError" || isA cls "TypeError" || isA cls "UnicodeDecodeError"
+    isA cls "AttributeError" || isA cls "UnicodeEncodeError" || isA cls "TypeError" || isA cls "UnicodeDecodeError" ||
+    isA cls "NotImplementedError"      -- (as repaired: nonlinear WKT such as CIRCULARSTRING is not a geometry shapely can hold)
   let rec go : List Cell → R Bool
     | [] => .ok true
     | x :: xs =>
